@@ -1,5 +1,5 @@
 /* PCryptoHash driver (C11).  usage: drv_hash <script> <trace>
- * script: new ALG | upd ID LEN SEED | updmap ID LOG2 EXTRA SEED | gets | getd | len | reset | free | scenario
+ * script: new ALG | upd ID LEN SEED | updmap ID LOG2 EXTRA SEED | gets | getsfail | getd | len | reset | free | scenario
  * chunk content: byte i = (seed * 131 + i * 7 + (i >> 8) * 13) & 0xff   (reproduced by the oracle) */
 #include <plibsys.h>
 #include <sys/mman.h>
@@ -43,6 +43,10 @@ int main (int argc, char **argv) {
 			p_crypto_hash_update (h, m, (psize) n);
 			munmap (m, n);
 			vt_emit ("{\"e\":\"upd\",\"c\":%ld,\"len\":1}", a);
+		}
+		else if (!strcmp (op, "getsfail")) {        /* the hex string cannot be allocated: the call returns NULL - and the context keeps its digest for the next read */
+			pchar *s; ga_fail_next = 1; s = p_crypto_hash_get_string (h); ga_fail_next = 0;
+			vt_emit ("{\"e\":\"getsfail\",\"null\":%d}", s ? 0 : 1); p_free (s);
 		}
 		else if (!strcmp (op, "gets")) { pchar *s = p_crypto_hash_get_string (h); vt_emit ("{\"e\":\"gets\",\"hex\":\"%s\"}", s ? s : "NULL"); p_free (s); }
 		else if (!strcmp (op, "getd")) {
